@@ -19,7 +19,7 @@ import traceback
 
 HERE = os.path.dirname(os.path.abspath(__file__))
 sys.path.insert(0, HERE)
-from common import VERIF, REPO, Run, jdump  # noqa: E402
+from common import VERIF, REPO, Run, jdump, jdefault  # noqa: E402
 
 sys.dont_write_bytecode = True
 COQ = os.path.join(VERIF, 'coq')
@@ -129,7 +129,7 @@ def write_replay(prop, payload):
     h = hashlib.sha1(jdump(payload).encode()).hexdigest()[:12]
     path = os.path.join('replays', '%s-%s.json' % (prop, h))
     with open(os.path.join(VERIF, path), 'w') as f:
-        json.dump(payload, f, indent=1, sort_keys=True, default=repr)
+        json.dump(payload, f, indent=1, sort_keys=True, default=jdefault)
     return path
 
 
@@ -159,11 +159,18 @@ def main(argv):
     if replay:
         payload = json.load(open(replay))
         rc = mod.replay(run, payload)
+        known_keys = {k['key']: k for k in load_known() if k.get('property') == prop and k.get('status') == 'known'}
+        fresh = []
         for f in run.failures:
+            if f['kind'] == 'oracle' and f.get('key') in known_keys:
+                # the listed findings are reported as such in replay mode too: they are not what a replay file is about
+                print('KNOWN-FINDING: property=%s %s' % (prop, known_keys[f['key']]['what']))
+                continue
+            fresh.append(f)
             print('REPLAY-FAIL %s: %s' % (f['kind'], f['what']))
             print(jdump(f['case'])[:3000])
-        print('replay verdict: %s' % ('property fails on this input' if run.failures else 'no failure reproduced'))
-        return 1 if run.failures else 0
+        print('replay verdict: %s' % ('property fails on this input' if fresh else 'no failure reproduced'))
+        return 1 if fresh else 0
 
     if not okb:
         run.fail('proof', 'the Coq development or the model driver does not build', {'log': blog[-1500:]})
